@@ -114,6 +114,21 @@ class C01(Property):
             ("many-curve-points", head + b"[HitObjects]\n0,0,0,2,0,B|" + b"|".join(b"%d:%d" % (i % 500, (i * 7) % 380) for i in range(big // 60)) + b",1,100\n"),
         ):
             cases.append(Case("total " + hexs(data), corr=False, tags=("scale-" + tag,)))
+        # UTF-16 files cut at every length (quick: every length of a short file): the reader's look-ahead for the second byte of a
+        # line feed meets the end of input at an odd offset (seed C01-n)
+        short = "osu file format v9\n\n[General]\nMode: 1\n\n[Metadata]\nTitle:t\n[HitObjects]\n64,64,100,1,0,0:0:0:0:\n\n"
+        for enc in ("utf-16-le", "utf-16-be"):
+            data = (b"\xff\xfe" if enc == "utf-16-le" else b"\xfe\xff") + short.encode(enc)
+            for k in range(0, len(data) + 1, 1 if tier != "quick" or len(data) < 400 else 3):
+                cases.append(Case("total " + hexs(data[:k]), corr=False, tags=("truncate-" + enc,)))
+        # hit-object lines whose position or control points lie beyond the coordinate limit, with Bezier / perfect-curve paths: the
+        # decoder rejects them (their curves would be computed at magnitudes where finding F23 lives), seed C01-m
+        for pos, path in (("20000000,192", "B|300:200|400:192"), ("256,2147483647", "B|300:200|400:192|500:0"), ("16777217,16777217", "P|16777300:200|400:16777400|5:5"),
+                          ("-131073,0", "B|1:1|2:5|7:3"), ("131073,131073", "B|131080:131090|131100:131000|0:0"), ("100,100", "B|4194305:4194304|4194306:4194305|4194305:4194305"),
+                          ("100,100", "B|131073:0|131074:5|131075:1"), ("1e30,0", "B|1:1|2:5|7:3"), ("8388609,0", "B|8388610:0|8388610:0")):
+            for mode in (0, 2):
+                ls = f"osu file format v14\n\n[General]\nMode: {mode}\n\n[HitObjects]\n{pos},1000,2,0,{path},1,100\n64,64,2000,1,0,0:0:0:0:\n"
+                cases.append(Case("total " + hexs(ls.encode()), corr=False, tags=("beyond-coordinate-limit",)))
         for d in READER_CORNERS:
             cases.append(Case("total " + hexs(d), corr=False, tags=("reader-corner",)))
             cases.append(Case("dec9 " + hexs(d), prop=False, tags=("reader-corner",)))
